@@ -270,3 +270,55 @@ func (w *World) InRepoPkg(p *types.Package) bool {
 	}
 	return p.Path() == w.ModPath || strings.HasPrefix(p.Path(), w.ModPath+"/")
 }
+
+var constGlobalCache = map[string]bool{}
+
+// constGlobal: the package-level variable is assigned only by its package initialiser and,
+// everywhere else in the repository, is only read (loaded for a lookup, a range, len or an index).
+func (w *World) constGlobal(pkg, name string) bool {
+	key := pkg + "." + name
+	if v, ok := constGlobalCache[key]; ok {
+		return v
+	}
+	g := w.Global(pkg, name)
+	res := g != nil
+	if g != nil {
+		for _, fn := range w.Funcs {
+			if fn.Synthetic != "" && fn.Name() == "init" {
+				continue
+			}
+			for _, b := range fn.Blocks {
+				for _, in := range b.Instrs {
+					var ops []*ssa.Value
+					for _, op := range in.Operands(ops) {
+						if *op != ssa.Value(g) {
+							continue
+						}
+						ld, ok := in.(*ssa.UnOp)
+						if !ok || ld.Op != token.MUL {
+							res = false
+							continue
+						}
+						for _, ref := range *ld.Referrers() {
+							switch r := ref.(type) {
+							case *ssa.Lookup:
+								if r.X != ssa.Value(ld) {
+									res = false
+								}
+							case *ssa.Range, *ssa.Index, *ssa.DebugRef:
+							case *ssa.Call:
+								if bi, ok := r.Call.Value.(*ssa.Builtin); !ok || bi.Name() != "len" {
+									res = false
+								}
+							default:
+								res = false
+							}
+						}
+					}
+				}
+			}
+		}
+	}
+	constGlobalCache[key] = res
+	return res
+}
